@@ -36,7 +36,7 @@ func VF_C08_SnapshotRecovers() {
 	vf.Assert(snap != nil && snap.Sseq == d.Sseq.End, "C08/C11 after storage recovers the next push brings the stored snapshot up to the end of the log")
 	real := w.store.Real[vfCol]
 	vf.Assert(len(real) == 1 && real[0].Ver == d.Sseq.End, "C08/C11 ... and the user-visible document too")
-	vf.Assert(w.lockFreeName(utils.GetLockName("US", 1, vfKey)), "C12 the snapshot lock is free afterwards")
+	vf.Assert(utils.VFAllLocksFree(), "C12 the snapshot lock is free afterwards")
 	sv, _, ok := w.serverValue(vfKey)
 	vf.Assert(ok && sv == 11, "C05 the server's copy holds every operation")
 	_ = model.TypeOfDatatype_COUNTER
